@@ -401,6 +401,102 @@ impl PProblem {
             .collect()
     }
 
+    /// Largest location index used anywhere in the problem.
+    pub fn max_location(&self) -> usize {
+        let mut m = 0;
+        for j in &self.jobs {
+            for t in &j.tasks {
+                for p in &t.places {
+                    m = m.max(p.loc);
+                }
+            }
+        }
+        for v in &self.vehicles {
+            for s in &v.shifts {
+                m = m.max(s.start_loc);
+                if let Some((l, _)) = s.end {
+                    m = m.max(l);
+                }
+                for b in &s.breaks {
+                    if let Some(l) = b.loc {
+                        m = m.max(l);
+                    }
+                }
+                for r in &s.reloads {
+                    m = m.max(r.loc);
+                }
+            }
+        }
+        m
+    }
+
+    /// The format requires the used location indices to be exactly 0..n-1 with an n x n matrix: locations are
+    /// renumbered by rank and the matrices are cut down to the used rows/columns.
+    pub fn fit_matrices(mut self) -> Self {
+        let mut used: Vec<usize> = vec![];
+        let mut note = |l: usize, used: &mut Vec<usize>| {
+            if !used.contains(&l) {
+                used.push(l);
+            }
+        };
+        for j in &self.jobs {
+            for t in &j.tasks {
+                for p in &t.places {
+                    note(p.loc, &mut used);
+                }
+            }
+        }
+        for v in &self.vehicles {
+            for s in &v.shifts {
+                note(s.start_loc, &mut used);
+                if let Some((l, _)) = s.end {
+                    note(l, &mut used);
+                }
+                for b in &s.breaks {
+                    if let Some(l) = b.loc {
+                        note(l, &mut used);
+                    }
+                }
+                for r in &s.reloads {
+                    note(r.loc, &mut used);
+                }
+            }
+        }
+        used.sort();
+        let rank = |l: usize| used.iter().position(|x| *x == l).unwrap();
+        for j in self.jobs.iter_mut() {
+            for t in j.tasks.iter_mut() {
+                for p in t.places.iter_mut() {
+                    p.loc = rank(p.loc);
+                }
+            }
+        }
+        for v in self.vehicles.iter_mut() {
+            for s in v.shifts.iter_mut() {
+                s.start_loc = rank(s.start_loc);
+                if let Some((l, t)) = s.end {
+                    s.end = Some((rank(l), t));
+                }
+                for b in s.breaks.iter_mut() {
+                    b.loc = b.loc.map(rank);
+                }
+                for r in s.reloads.iter_mut() {
+                    r.loc = rank(r.loc);
+                }
+            }
+        }
+        let n = used.len();
+        for m in self.matrices.iter_mut() {
+            let old_n = m.n;
+            let cut = |v: &Vec<i64>| -> Vec<i64> { used.iter().flat_map(|i| used.iter().map(move |j| (*i, *j))).map(|(i, j)| v[i * old_n + j]).collect() };
+            m.durations = cut(&m.durations);
+            m.distances = cut(&m.distances);
+            m.error_codes = m.error_codes.as_ref().map(cut);
+            m.n = n;
+        }
+        self
+    }
+
     pub fn matrix_of(&self, profile: &str) -> Option<&PMatrix> {
         self.matrices.iter().find(|m| m.profile == profile)
     }
